@@ -117,7 +117,9 @@ def main():
             r1, s1 = state(f)(x)
             r2, s2 = jax.jit(state(f))(x)
             r3, s3 = seed(state(f))(jax.random.key(0), x)
-            c["transparent"] = bool(plain == r1) and bool(plain == r2) and bool(plain == r3)
+            # the result is a float32 sum of the saved values (up to ~1e8): equal up to summation order
+            close = lambda a, b: bool(jnp.abs(a - b) <= 1e-5 * (1.0 + jnp.abs(b)))  # noqa: E731
+            c["transparent"] = close(plain, r1) and close(plain, r2) and close(plain, r3)
             c["obs"] = [canon_tree(s1), canon_tree(s2), canon_tree(s3)]
         except Exception as e:  # noqa: BLE001
             c["err"] = type(e).__name__ + ": " + str(e)[:200]
